@@ -12,13 +12,18 @@ RULE = ("constructed pairs (recorded program P, replayed program P'): P is a fau
         "literal results; P' asks for present and absent inputs/outputs; the FULL cross product of the missing-key options for "
         "one probe call - fallbacks {none, list without hit, list with hit, function with hit, function raising} x "
         "run-original x substitute {none, 5, 0, '', [], {}, False, callable} x data handler {none, wrap} x present/absent, "
-        "and for outputs fail-flag x default x present/absent/handler failing on what the replayed code sends - each replayed "
+        "and for outputs fail-flag x default x present/absent/handler failing on what the replayed code sends; absent calls that "
+        "differ from a recorded call of the same input only in the TYPE of an argument (1 / True / 1.0, tuple / list, bytes / str, "
+        "two classes with equal attributes; positional and keyword; both directions; absent twin before the recorded call) - each replayed "
         "with recording enabled and disabled and one to three times; plus random program pairs; non-trivial = every case; "
-        "distinct = distinct (P, P', options)")
+        "distinct = distinct (P, P', options); plus (implementation only) replays started from INSIDE an operation that is being "
+        "recorded on the same recorder (recording mode and playback mode at once): constructed and random (P, P') x endpoint "
+        "input before / output after x three cassettes")
 EXHAUSTIVE = {"quick": True, "thorough": True}
 ASSUMPTIONS = ["a recorded exception whose type is RecordingKeyError is indistinguishable from a missing key (outside the "
                "program domain: user code does not raise framework exceptions)"]
-TRUSTED = ["expectations of the constructed pairs are known by construction (harness-side, no model)"]
+TRUSTED = ["expectations of the constructed pairs are known by construction (harness-side, no model)",
+           "nested replays (play() inside a recorded operation) are outside the Coq model: direct predicate only"]
 THEOREMS = ["C02_replay_writes_nothing", "C02_replay_is_readonly", "C02_no_body_runs", "C02_replay_policy",
             "C02_recorded_answer_is_own_key", "C02_output_policy", "C02_replay_repeatable"]
 
@@ -426,7 +431,9 @@ MANIFEST = dict(
          "predicate: constructed (P, P') pairs with expectations known by construction over the full cross product of the "
          "missing-key options (~700 configurations incl. falsy substitutes, fallbacks with and without hit, failing fallback "
          "function, recorded exceptions, output handler failing on what replayed code sends), replayed 1-3 times with recording "
-         "enabled and disabled, spy cassette, serialized store compared before/after; plus random program pairs.",
+         "enabled and disabled, spy cassette, serialized store compared before/after; plus random program pairs. Round 6: absent "
+         "calls that are type twins of a recorded call (model + direct); a replay nested in a recorded operation answers from the "
+         "played recording, runs no body, only fetches, and leaves the ACTIVE recording without any entry of its own (direct only).",
     note="Trusted: Coq kernel + vm_compute, hand-written model, correspondence harness, by-construction expectations. A recorded "
          "exception of type RecordingKeyError is outside the domain (indistinguishable from a missing key).",
     technique="Coq proof (structural induction + case analysis of the decorator in playback mode = declarative policy) + "
